@@ -31,14 +31,22 @@
 (*                   "?"   the statement does not say                      *)
 (*   LawHolds      the mechanism's reads satisfy Req on every transition.  *)
 (*                                                                         *)
-(* TLC explores the store to depth MaxOps; the VIEW is (store before the   *)
-(* operation, operation, depth), so every (store, operation) transition is *)
-(* one distinct TLC state and is emitted once, with a shortest witness     *)
-(* sequence and the read-back both layers predict after every operation.   *)
+(* Mode "cover": TLC explores the store to depth MaxOps; the VIEW is (store *)
+(* before the operation, operation, depth), so every (store, operation)    *)
+(* transition is one distinct TLC state and is emitted once, with a        *)
+(* shortest witness sequence and the read-back both layers predict after   *)
+(* every operation.  Mode "seq" (small alphabets, cfg without VIEW): every *)
+(* operation sequence of length MaxOps is its own state and is emitted -   *)
+(* this reaches implementation states the abstract store does not          *)
+(* distinguish (a shortest witness never goes through "set, then remove"). *)
+(* Mode "walk": -simulate, one emission per random walk of MaxOps steps.   *)
+(* Alphabet "multi" has five objects in ONE context: an operation on one   *)
+(* object must leave every cell of every other object unchanged.           *)
 (***************************************************************************)
 EXTENDS Integers, Sequences, FiniteSets, TLC, Json
 
-CONSTANTS Alphabet,     \* "quick" | "thorough" | "deep" : which operation alphabet
+CONSTANTS Alphabet,     \* "quick" | "thorough" | "deep" | "small" | "small12" | "multi" : which operation alphabet
+          Mode,         \* "cover" | "seq" | "walk"
           MaxOps,       \* length of the operation sequences
           Legacy        \* subset of {"exact-keys", "empty-subfield"}: model falco as it was before the
                         \* corresponding fix: commit (the defect then shows as a violated invariant)
@@ -52,15 +60,25 @@ WS == {" ", NL}
 Sep == ","
 
 \* header names: spelling |-> canonical name (net/http.CanonicalHeaderKey)
-Spellings == IF Alphabet = "quick" THEN <<"Foo", "fOO", "X-Bar">> ELSE <<"Foo", "fOO", "FOO", "X-Bar", "x-bar">>
+Spellings == CASE Alphabet = "quick" -> <<"Foo", "fOO", "X-Bar">>
+               [] Alphabet \in {"small", "small12", "multi"} -> <<"Foo", "fOO">>
+               [] OTHER -> <<"Foo", "fOO", "FOO", "X-Bar", "x-bar">>
+\* the objects of one context ("_" = the object is a replay dimension)
+Objs == IF Alphabet = "multi" THEN <<"req", "bereq", "beresp", "obj", "resp">> ELSE <<"_">>
+ObjSet == {Objs[i] : i \in 1..Len(Objs)}
 Canon(n) == IF n \in {"Foo", "fOO", "FOO", "foo"} THEN "Foo" ELSE "X-Bar"
 Canons == {"Foo", "X-Bar"}
 SpSet == {Spellings[i] : i \in 1..Len(Spellings)}
 \* the spellings operations are written through (reads go through all of them)
-WriteSp == IF Alphabet = "quick" THEN {"Foo", "fOO", "X-Bar"} ELSE {"Foo", "fOO", "X-Bar", "x-bar"}
+WriteSp == CASE Alphabet = "quick" -> {"Foo", "fOO", "X-Bar"}
+             [] Alphabet \in {"small", "small12", "multi"} -> {"Foo", "fOO"}
+             [] OTHER -> {"Foo", "fOO", "X-Bar", "x-bar"}
 MainSp == {n \in WriteSp : Canon(n) = "Foo"}
 
-Keys == << <<"a">>, <<"b">>, <<"a", "b">> >>
+\* sub-field keys; "A" is another spelling of "a" (the pattern of field.go is case-insensitive)
+Keys == IF Alphabet \in {"small", "small12", "multi"} THEN << <<"a">>, <<"A">> >> ELSE << <<"a">>, <<"A">>, <<"b">>, <<"a", "b">> >>
+Low(c) == IF c = "A" THEN "a" ELSE IF c = "B" THEN "b" ELSE c
+LowS(q) == [i \in 1..Len(q) |-> Low(q[i])]
 KeySet == {Keys[i] : i \in 1..Len(Keys)}
 Whole == <<>>                    \* the "key" of the whole header
 
@@ -84,6 +102,8 @@ WholeVals == CASE Alphabet = "quick" -> {vX, vXsY, vE, vXnY, NULL, vDict3}
 FieldVals == CASE Alphabet = "quick" -> {vX, vXsY, vE}
                [] Alphabet = "thorough" -> {vX, vY, vE, vXsY, vXcY, vXeY, vXnY, NS, NULL}
                [] OTHER -> {vX, vE, vXcY}
+\* quick: the full value set on key "a" only
+FieldValsFor(k) == IF Alphabet = "quick" /\ k # <<"a">> THEN {vX} ELSE FieldVals
 AddVals   == CASE Alphabet = "quick" -> {vX}
                [] Alphabet = "thorough" -> {vX, vE, vXsY, NULL}
                [] OTHER -> {vX, vE}
@@ -91,17 +111,26 @@ AppVals   == CASE Alphabet = "quick" -> {}
                [] Alphabet = "thorough" -> {vY, NULL}
                [] OTHER -> {vY}
 
-Op(o, n, k, v) == [op |-> o, n |-> n, k |-> k, v |-> v]
+Op(o, n, k, v) == [op |-> o, n |-> n, k |-> k, v |-> v, o |-> "_"]
 \* everything on the main header, a reduced set on the other one (it is there for the frame laws)
 OpsOn(n) ==
   IF Canon(n) = "Foo"
   THEN {Op("set", n, Whole, v) : v \in WholeVals} \cup {Op("unset", n, Whole, NS)}
-       \cup {Op("setf", n, k, v) : k \in KeySet, v \in FieldVals} \cup {Op("unsetf", n, k, NS) : k \in KeySet}
+       \cup UNION {{Op("setf", n, k, v) : v \in FieldValsFor(k)} : k \in KeySet} \cup {Op("unsetf", n, k, NS) : k \in KeySet}
        \cup {Op("add", n, Whole, v) : v \in AddVals}
        \cup {Op("app", n, k, v) : k \in {Whole, <<"a">>}, v \in AppVals}
   ELSE {Op("set", n, Whole, vX), Op("set", n, Whole, vE), Op("unset", n, Whole, NS),
         Op("setf", n, <<"a">>, vX), Op("unsetf", n, <<"a">>, NS)}
-OpSet == UNION {OpsOn(n) : n \in WriteSp}
+SmallOps == {Op("set", n, Whole, v) : n \in WriteSp, v \in {vX, vE}} \cup {Op("unset", n, Whole, NS) : n \in WriteSp}
+            \cup {Op("setf", n, <<"a">>, vX) : n \in WriteSp} \cup {Op("unsetf", n, <<"a">>, NS) : n \in WriteSp}
+            \cup {Op("add", n, Whole, vX) : n \in WriteSp} \cup {Op("setf", "Foo", <<"A">>, vY), Op("unsetf", "fOO", <<"A">>, NS)}
+MultiOps == {[x EXCEPT !.o = ob] : ob \in ObjSet,
+               x \in {Op("set", "Foo", Whole, vX), Op("set", "fOO", Whole, vE), Op("unset", "Foo", Whole, NS),
+                      Op("add", "Foo", Whole, vX), Op("setf", "Foo", <<"a">>, vX)}}
+OpSet == CASE Alphabet = "small" -> SmallOps
+           [] Alphabet = "small12" -> {x \in SmallOps : x.k # <<"A">>}
+           [] Alphabet = "multi" -> MultiOps
+           [] OTHER -> UNION {OpsOn(n) : n \in WriteSp}
 
 ----------------------------------------------------------------------------
 (* strings *)
@@ -109,7 +138,8 @@ RECURSIVE RunIn(_, _, _), RunOut(_, _, _), Join(_), CutNL(_)
 RunIn(s, i, C)  == IF i <= Len(s) /\ s[i] \in C THEN 1 + RunIn(s, i + 1, C) ELSE 0
 RunOut(s, i, C) == IF i <= Len(s) /\ s[i] \notin C THEN 1 + RunOut(s, i + 1, C) ELSE 0
 At(s, i) == IF i >= 1 /\ i <= Len(s) THEN s[i] ELSE "<eot>"
-HasAt(s, i, lit) == i + Len(lit) - 1 <= Len(s) /\ SubSeq(s, i, i + Len(lit) - 1) = lit
+\* (?i): the key is matched case-insensitively
+HasAt(s, i, lit) == i + Len(lit) - 1 <= Len(s) /\ LowS(SubSeq(s, i, i + Len(lit) - 1)) = LowS(lit)
 Join(s) == IF s = <<>> THEN "" ELSE s[1] \o Join(Tail(s))
 CutNL(s) == IF s = <<>> \/ s[1] = NL THEN <<>> ELSE <<s[1]>> \o CutNL(Tail(s))   \* strings.Cut(v, "\n")
 Has(s, C) == \E i \in 1..Len(s) : s[i] \in C
@@ -204,7 +234,8 @@ MUnset(L, A, n) == St([L EXCEPT ![Canon(n)] = <<>>], A \ {AK(n)})
 MUnsetF(L, A, n, key) ==
   LET t == UnsetFieldStr(First(L, Canon(n)), key) IN
   St([L EXCEPT ![Canon(n)] = IF t = <<>> THEN <<>> ELSE <<t>>], A \ {AK(n)})
-MAdd(L, A, n, val) == St([L EXCEPT ![Canon(n)] = Append(@, val)], A)   \* http.Header.Add, no Assign, no cut
+\* http.Header.Add (no cut at a newline) + Assign ("add-unassigned" \in Legacy: no Assign)
+MAdd(L, A, n, val) == St([L EXCEPT ![Canon(n)] = Append(@, val)], IF "add-unassigned" \in Legacy THEN A ELSE A \cup {AK(n)})
 \* value.String.String() of a not-set value
 NullStr == <<"(", "n", "u", "l", "l", ")">>
 
@@ -223,15 +254,16 @@ Apply(L, A, o) ==
          IF o.k = Whole THEN MSet(L, A, o.n, FALSE, cur) ELSE MSetF(L, A, o.n, o.k, FALSE, cur)
 
 ----------------------------------------------------------------------------
-(* state *)
-VARIABLES lines, asg,      \* the store
-          pl, pa,          \* the store before the last operation
+(* state: one store (lines, asg) per object *)
+VARIABLES lines, asg,      \* the stores: object |-> ...
+          pl, pa,          \* the stores before the last operation
           last,            \* the last operation
-          hist             \* witness: <<[op, m, r]>> (hidden from the VIEW)
-vars == <<lines, asg, pl, pa, last, hist>>
+          hist,            \* witness: <<[op, m, r]>> (hidden from the VIEW in mode "cover")
+          done             \* mode "walk": the walk is complete (the one state a walk is emitted from)
+vars == <<lines, asg, pl, pa, last, hist, done>>
 
-Cells == {<<n, k>> : n \in SpSet, k \in {Whole} \cup KeySet}
-Reads(L, A) == [c \in Cells |-> MGet(L, A, c[1], c[2])]
+Cells == {<<ob, n, k>> : ob \in ObjSet, n \in SpSet, k \in {Whole} \cup KeySet}
+Read(LL, AA, c) == MGet(LL[c[1]], AA[c[1]], c[2], c[3])
 
 ----------------------------------------------------------------------------
 (* REQUIREMENT                                                             *)
@@ -239,63 +271,81 @@ Eq(v) == [t |-> "eq", v |-> v]
 SameV  == [t |-> "same", v |-> NotSet]
 AnyV   == [t |-> "any", v |-> NotSet]
 
-\* what the cell (n, k) must read after operation o
-Req(o, n, k) ==
-  IF Canon(n) # Canon(o.n) THEN SameV                       \* every other header keeps its value
+\* what the cell (ob, n, k) must read after operation o; before = what the whole header (ob, n) read before
+Req(o, ob, n, k, before) ==
+  IF ob # o.o THEN SameV                                   \* every other object keeps its value
+  ELSE IF Canon(n) # Canon(o.n) THEN SameV                 \* every other header keeps its value
   ELSE CASE o.op = "set" ->
               IF k # Whole THEN AnyV
               ELSE IF o.v.kind = "str" THEN Eq(Val(CutNL(o.v.s))) ELSE Eq(NotSet)
          [] o.op = "unset" -> IF k = Whole THEN Eq(NotSet) ELSE AnyV
          [] o.op = "setf" ->
               IF k = Whole THEN AnyV
-              ELSE IF k # o.k THEN SameV                    \* every other sub-field keeps its value
-              ELSE IF o.v.kind = "str" /\ ~Has(o.v.s, {NL}) THEN Eq(Val(o.v.s))
+              ELSE IF LowS(k) # LowS(o.k) THEN SameV       \* every other sub-field keeps its value
+              ELSE IF k # o.k THEN AnyV                    \* another spelling of the key: the statement does not say
+              ELSE IF o.v.kind = "str" /\ ~Has(o.v.s, {NL}) THEN Eq(Val(o.v.s))   \* the spelling just written
               ELSE AnyV   \* named deviations: a not-set value (documented Fastly quirk), a newline in a sub-field
          [] o.op = "unsetf" ->
-              IF k = Whole THEN AnyV ELSE IF k # o.k THEN SameV ELSE Eq(NotSet)
-         [] o.op = "add" -> AnyV
+              IF k = Whole THEN AnyV ELSE IF LowS(k) # LowS(o.k) THEN SameV
+              ELSE IF k # o.k THEN AnyV ELSE Eq(NotSet)
+         [] o.op = "add" ->
+              \* add on a header that reads as not set makes it read the value added; otherwise the
+              \* statement does not say which line is read
+              IF k = Whole /\ before.ns /\ o.v.kind = "str" /\ ~Has(o.v.s, {NL}) THEN Eq(Val(o.v.s)) ELSE AnyV
          [] o.op = "app" ->
-              IF o.k = Whole \/ k = Whole \/ k = o.k THEN AnyV ELSE SameV
+              IF o.k = Whole \/ k = Whole \/ LowS(k) = LowS(o.k) THEN AnyV ELSE SameV
 
 Sat(tag, before, after) == CASE tag.t = "eq" -> after = tag.v
                              [] tag.t = "same" -> after = before
                              [] OTHER -> TRUE
 
+ReqOf(o, c) == Req(o, c[1], c[2], c[3], Read(pl, pa, <<c[1], c[2], Whole>>))
 LawHolds ==
-  last.op # "none" =>
-    \A c \in Cells : Sat(Req(last, c[1], c[2]), MGet(pl, pa, c[1], c[2]), MGet(lines, asg, c[1], c[2]))
+  last.op # "none" => \A c \in Cells : Sat(ReqOf(last, c), Read(pl, pa, c), Read(lines, asg, c))
 
 SpellingLaw ==
   \A c1, c2 \in Cells :
-    (Canon(c1[1]) = Canon(c2[1]) /\ c1[2] = c2[2]) => MGet(lines, asg, c1[1], c1[2]) = MGet(lines, asg, c2[1], c2[2])
+    (c1[1] = c2[1] /\ Canon(c1[2]) = Canon(c2[2]) /\ c1[3] = c2[3]) => Read(lines, asg, c1) = Read(lines, asg, c2)
 
 ----------------------------------------------------------------------------
 (* emission *)
 Enc(v) == IF v.ns THEN "!" ELSE "=" \o Join(v.s)
 EncTag(t) == CASE t.t = "eq" -> Enc(t.v) [] t.t = "same" -> "~" [] OTHER -> "?"
 KeyName(k) == Join(k)
-\* per spelling (in Spellings order) the cells whole, a, b, ab
-MRow(L, A) == [i \in 1..Len(Spellings) |->
-                 <<Enc(MGet(L, A, Spellings[i], Whole))>> \o [j \in 1..Len(Keys) |-> Enc(MGet(L, A, Spellings[i], Keys[j]))]]
-RRow(o) == [i \in 1..Len(Spellings) |->
-              <<EncTag(Req(o, Spellings[i], Whole))>> \o [j \in 1..Len(Keys) |-> EncTag(Req(o, Spellings[i], Keys[j]))]]
-OpJson(o) == [op |-> o.op, n |-> o.n, k |-> KeyName(o.k), vk |-> o.v.kind, v |-> Join(o.v.s)]
+\* per object, per spelling (in Spellings order): the cells whole, then the keys in Keys order
+KeyAt(j) == IF j = 1 THEN Whole ELSE Keys[j - 1]
+MRow(LL, AA) == [oi \in 1..Len(Objs) |-> [i \in 1..Len(Spellings) |-> [j \in 1..Len(Keys) + 1 |->
+                   Enc(Read(LL, AA, <<Objs[oi], Spellings[i], KeyAt(j)>>))]]]
+RRow(o, LL, AA) == [oi \in 1..Len(Objs) |-> [i \in 1..Len(Spellings) |-> [j \in 1..Len(Keys) + 1 |->
+                   EncTag(Req(o, Objs[oi], Spellings[i], KeyAt(j), Read(LL, AA, <<Objs[oi], Spellings[i], Whole>>)))]]]
+OpJson(o) == [op |-> o.op, o |-> o.o, n |-> o.n, k |-> KeyName(o.k), vk |-> o.v.kind, v |-> Join(o.v.s)]
 
-None == [op |-> "none", n |-> "", k |-> Whole, v |-> NS]
-Init == /\ lines = [c \in Canons |-> <<>>] /\ asg = {}
-        /\ pl = lines /\ pa = asg /\ last = None /\ hist = <<>>
+None == [op |-> "none", n |-> "", k |-> Whole, v |-> NS, o |-> "_"]
+Init == /\ lines = [ob \in ObjSet |-> [c \in Canons |-> <<>>]] /\ asg = [ob \in ObjSet |-> {}]
+        /\ pl = lines /\ pa = asg /\ last = None /\ hist = <<>> /\ done = FALSE
 
-Do(o) == LET r == Apply(lines, asg, o) IN
-         /\ lines' = r.L /\ asg' = r.A /\ pl' = lines /\ pa' = asg /\ last' = o
-         /\ hist' = Append(hist, [op |-> OpJson(o), m |-> MRow(r.L, r.A), r |-> RRow(o)])
+Do(o) == LET r == Apply(lines[o.o], asg[o.o], o)
+             L2 == [lines EXCEPT ![o.o] = r.L]
+             A2 == [asg EXCEPT ![o.o] = r.A] IN
+         /\ lines' = L2 /\ asg' = A2 /\ pl' = lines /\ pa' = asg /\ last' = o
+         /\ hist' = Append(hist, [op |-> OpJson(o), m |-> MRow(L2, A2), r |-> RRow(o, lines, asg)])
+         /\ UNCHANGED done
 
-Next == Len(hist) < MaxOps /\ \E o \in OpSet : Do(o)
+\* mode "walk": the single successor of a complete walk (in simulation mode TLC evaluates the invariants on
+\* every candidate successor, so a walk is emitted from here only)
+Finish == Mode = "walk" /\ ~done /\ Len(hist) = MaxOps /\ done' = TRUE /\ UNCHANGED <<lines, asg, pl, pa, last, hist>>
+
+Next == (Len(hist) < MaxOps /\ \E o \in OpSet : Do(o)) \/ Finish
 Spec == Init /\ [][Next]_vars
 
-View == <<pl, pa, last, Len(hist)>>
+View == <<pl, pa, last, Len(hist), done>>
 
-Emit == Len(hist) > 0 =>
+EmitNow == CASE Mode = "cover" -> Len(hist) > 0
+             [] Mode = "seq" -> Len(hist) = MaxOps
+             [] OTHER -> done
+Emit == EmitNow =>
           PrintT(<<"BEHAVIOUR", ToJson([steps |-> hist,
+                                        objs |-> Objs,
                                         sp |-> Spellings,
                                         canon |-> [i \in 1..Len(Spellings) |-> Canon(Spellings[i])],
                                         keys |-> [j \in 1..Len(Keys) |-> KeyName(Keys[j])]])>>)
